@@ -123,6 +123,7 @@ HOLES = [
     ("rb'", "'"), ("'''", "'''\n"), ('(', ')\n'), ('if x:\n ', 'y\n'), ('x', '= 1\n'), ('#', '\n'),
     ('\\', '\n'), ('x = "a\\', 'b"\n'), ('if x:\n  y\n ', 'z\n'), ('[\n', ']'), ('f"{x}', ''), ('0', 'x'),
     (BOM, 'x'), ('f"{x:{y', '}}"'), ('a ', ' b'), ("b'a", "\n"), ('class', ' A: pass'), ('f"{(', 'def'),
+    ('a = 1\n', '\nb = 2\n'), ('x = a', '\n'), ('f"{f\'', ''), ("x = b", "'abc\\\ndef'\n"),
 ]
 
 
